@@ -6,23 +6,28 @@
 import json, os, shutil, subprocess, sys, time
 pid = sys.argv[1]
 name = sys.argv[sys.argv.index("--name") + 1] if "--name" in sys.argv else pid
-wt, out = f"/tmp/seed_{name}", f"/tmp/seed_{name}_out"
-if not os.path.isdir(wt): wt, out = f"/tmp/seed_{pid}", f"/tmp/seed_{pid}_out"
+out = f"/tmp/seed_{name}_out"
+if not os.path.isdir(out): out = f"/tmp/seed_{pid}_out"
 dst = f"/verif/seeded/{name}"
 os.makedirs(dst, exist_ok=True)
-env = dict(os.environ, PYTHONPATH=f"{wt}/src")
 def run(cmd, **kw):
     return subprocess.run(cmd, stdout=subprocess.PIPE, stderr=subprocess.STDOUT, text=True, **kw)
-patch = os.path.join(out, "patch.diff")
-# make sure the worktree holds exactly the patch
-cur = run(["git", "-C", wt, "diff"]).stdout
-if cur.strip() != open(patch).read().strip():
-    print("note: worktree diff differs from patch.diff; resetting worktree to HEAD + patch.diff")
-    run(["git", "-C", wt, "checkout", "--", "."]); r = run(["git", "-C", wt, "apply", patch]); print(r.stdout)
-with_change = run(["/venv/bin/python", os.path.join(out, "demo.py")], cwd=wt, env=env, timeout=1800)
-run(["git", "-C", wt, "apply", "-R", patch])
-without = run(["/venv/bin/python", os.path.join(out, "demo.py")], cwd=wt, env=env, timeout=1800)
-run(["git", "-C", wt, "apply", patch])
+# patch/demo come from the seeding agent's output dir the first time, afterwards from /verif/seeded/<name>
+for f in ("patch.diff", "demo.py", "notes.md"):
+    if os.path.exists(os.path.join(out, f)) and not os.path.exists(os.path.join(dst, f)): shutil.copy(os.path.join(out, f), dst)
+patch = os.path.join(dst, "patch.diff")
+# fresh scratch worktree at the CURRENT /repo HEAD, so that the verdict is about this change alone
+wt = f"/tmp/seval_{name}"
+run(["git", "-C", "/repo", "worktree", "remove", "--force", wt])
+r = run(["git", "-C", "/repo", "worktree", "add", "--detach", wt, "HEAD"])
+assert os.path.isdir(wt), r.stdout
+env = dict(os.environ, PYTHONPATH=f"{wt}/src")
+head = run(["git", "-C", "/repo", "rev-parse", "--short", "HEAD"]).stdout.strip()
+without = run(["/venv/bin/python", os.path.join(dst, "demo.py")], cwd=wt, env=env, timeout=1800)
+r = run(["git", "-C", wt, "apply", patch])
+if r.returncode != 0:
+    print("patch does not apply to current HEAD:", r.stdout); run(["git", "-C", "/repo", "worktree", "remove", "--force", wt]); sys.exit(3)
+with_change = run(["/venv/bin/python", os.path.join(dst, "demo.py")], cwd=wt, env=env, timeout=1800)
 t0 = time.time()
 chk = run(["./check", pid, "--tier", "quick"], cwd="/verif", env=dict(os.environ, VERIF_REPO=wt), timeout=7200)
 lines = [l for l in chk.stdout.splitlines() if l.startswith(("VIOLATION", "OK", "detail", "KNOWN", "harness"))]
@@ -33,14 +38,14 @@ for l in lines:
         rp = l.split("replay=")[1].split()[0]
         if os.path.exists(os.path.join("/verif", rp)):
             replay = json.load(open(os.path.join("/verif", rp)))
-for f in ("patch.diff", "demo.py", "notes.md"):
-    if os.path.exists(os.path.join(out, f)): shutil.copy(os.path.join(out, f), dst)
+run(["git", "-C", "/repo", "worktree", "remove", "--force", wt])
 meta = {
+    "repo_head": head,
     "property": pid, "seed_name": name,
     "files_changed": [l[6:] for l in open(patch) if l.startswith("+++ b/")],
     "demo_with_change_exit": with_change.returncode, "demo_without_change_exit": without.returncode,
     "demo_with_change_tail": with_change.stdout[-600:], "demo_without_change_tail": without.stdout[-300:],
-    "check_cmd": f"VERIF_REPO=<scratch worktree with patch.diff applied> ./check {pid} --tier quick",
+    "check_cmd": f"VERIF_REPO=<fresh scratch worktree of /repo HEAD with patch.diff applied> ./check {pid} --tier quick",
     "check_exit": chk.returncode, "check_caught": caught, "check_lines": lines[-6:], "check_wall_s": round(time.time() - t0, 1),
     "violation_kind": (replay or {}).get("kind"), "violation_what": ((replay or {}).get("what") or "")[:400],
 }
